@@ -98,7 +98,7 @@ def _execute(ds, lay, st, op, sort, ctx):
         gb = GroupBy(keys, sort=sort, factorize_large_inputs_in_chunks=st["chunk_flag"])
         info["gb"] = gb
         _repr_probe(gb, info, st, ds, lay)
-        return ops.call_op(gb, op, values, mask, ds)
+        return ops.call_op(gb, op, values, mask, ds, raw_keys=keys)
 
     with executor.use_context(ctx):
         out = _outcome(go)
@@ -189,7 +189,10 @@ def execute(sc, sched: Choices, cls, cfg):
         unordered = op["op"] in ops.UNORDERED
         opname = op["op"] + ("_transform" if op.get("transform") else "")
         site = {"property": PROP, "op": opname}
+        if op.get("via") == "api":
+            probes.add("via_facade")
         features = {
+            "via": op.get("via", "core"),
             "key_kind": key_kind,
             "null_keys": "present" if null_keys else "none",
             "mask": mask["kind"] if mask["kind"] != "positions" else "positions_" + mask["style"],
